@@ -9,6 +9,15 @@ Theorem ring_refines_fifo :
 Proof. exact model_satisfies_checker. Qed.
 Print Assumptions ring_refines_fifo.
 
+(* The same for a ring whose 64-bit free-running pointers already stand at any position b (a ring that has
+   carried b bytes before): stride boundaries are judged on absolute positions. [create_at c 0 = create c] and
+   [C18_check_at 0] is [C18_check] (Proofs.check_from_at_0). *)
+Theorem ring_refines_fifo_any_pointer_base :
+  forall c b ops, 2 <= c -> 0 <= b ->
+    C18_check_at b (combine ops (snd (run (create_at c b) ops))) = true.
+Proof. exact model_satisfies_checker_at. Qed.
+Print Assumptions ring_refines_fifo_any_pointer_base.
+
 (* What the checker's "true" means, independent of any model. *)
 Theorem checker_sound :
   forall h, C18_check h = true -> no_discards h -> reads_prefix_of_writes h.
